@@ -656,3 +656,26 @@ pub fn impl_helpers_rule(cx: &Cx, rep: &mut Report) {
     }
     rep.unanalysable("impl helpers", &ev.unsupported.borrow());
 }
+
+/// every `bail!` carries a non-empty literal message
+pub fn bail_messages_rule(cx: &Cx, rep: &mut Report) {
+    use syn::visit::Visit;
+    struct V { bad: Vec<String>, n: usize, file: String }
+    impl<'ast> Visit<'ast> for V {
+        fn visit_macro(&mut self, m: &'ast syn::Macro) {
+            if m.path.is_ident("bail") {
+                self.n += 1;
+                let toks: Vec<proc_macro2::TokenTree> = m.tokens.clone().into_iter().collect();
+                let comma = toks.iter().position(|t| matches!(t, proc_macro2::TokenTree::Punct(p) if p.as_char() == ','));
+                let ok = match comma.and_then(|i| toks.get(i + 1)) { Some(proc_macro2::TokenTree::Literal(l)) => { let s = l.to_string(); s.starts_with('"') && s.len() > 2 } _ => false };
+                if !ok { self.bad.push(format!("{}:{}", self.file, m.path.segments[0].ident.span().start().line)); }
+            }
+            // macros nested in macro arguments are not visited by syn; bail! only occurs at statement level here
+        }
+    }
+    let mut total = 0;
+    let mut bad = Vec::new();
+    for defs in cx.ix.fns.values() { for f in defs { let mut v = V { bad: vec![], n: 0, file: f.file.clone() }; v.visit_block(&f.block); total += v.n; bad.extend(v.bad); } }
+    rep.check(bad.is_empty(), "ES-entry-total", "bail!", "message", &format!("error sites without a literal message: {bad:?}"), "derive-ex/src", json!({}));
+    rep.floor("bail! sites with a literal message", total, 20);
+}
